@@ -122,7 +122,7 @@ def stepLine (s : St) (toks : List String) : St × String :=
                    | .nstf => "nstf"
                    | .eos _ _ => "eos"
                    | .item _ => "ev"
-                 s!"{kind} i={i} vi={c.m.index} v={viewStr c.m.view}"
+                 if c.m.h = .bad then "herr" else s!"{kind} i={i} vi={c.m.index} v={viewStr c.m.view}"
            ({ s with sys := y }, out)
        | none => (s, "bad-op"))
   | ["unsub", id] =>
